@@ -118,6 +118,15 @@ Theorem C19_block_count : forall {A} (payload : list A) (bs : Z), 1 <= bs ->
   concat (chunks (Z.to_nat bs) payload) = payload.
 Proof. exact @block_count. Qed.
 
+(* the hypotheses honest_source / honest_z / honest_valid are satisfiable by the harness's sources (a read error
+   in block 1, a failing final flush, a two-chunk stream, the content check that stands for validate_file) *)
+Theorem C19_hypotheses_satisfiable :
+  honest_source [262144; 262144; 1] (mkSource true true (Some 524289) [Some 262144; None] true) /\
+  honest_source [262144; 262144; 1] (mkSource true true (Some 524289) [Some 262144; Some 262144; Some 1] false) /\
+  honest_z [65536; 5] (mkZ true [Some 65536; Some 5] true) /\
+  (forall cs, honest_valid [1; 1; 1] (mkCS cs (fun c => Common.ListX.list_beq Z.eqb c [1; 1; 1]))).
+Proof. exact hypotheses_examples. Qed.
+
 (* non-vacuity: 2 blocks + 1 byte; an I/O error in read 1, a crash inside write 1, an I/O error on the
    final flush, then success,
    then a call whose source would fail if consulted *)
@@ -145,4 +154,5 @@ Print Assumptions C19_split_final_absent_or_complete.
 Print Assumptions C19_split_retry_repairs.
 Print Assumptions C19_split_cache_reused.
 Print Assumptions C19_split_never_torn.
+Print Assumptions C19_hypotheses_satisfiable.
 Print Assumptions C19_block_count.
